@@ -88,7 +88,7 @@ func (c *Check) persistUnits(family, structType string) map[*Func][]*PersistPath
 			if !pa.OK() {
 				continue
 			}
-			pp := &PersistPath{Fn: f, Path: pa, Facts: pa.AllFacts(), Calls: map[string]int{}}
+			pp := &PersistPath{Fn: f, Path: pa, Facts: c.closeFacts(pa.AllFacts()), Calls: map[string]int{}}
 			for _, ev := range pa.Events {
 				if ev.Kind != EvCall {
 					continue
